@@ -1,7 +1,8 @@
 (* C05 -- the handle mirrors exactly the selected public methods, with their signatures.
    Statements only; the model is Gen/Classify.v, proofs are in Gen/ClassifyThm.v.
    Guard: the names of the eligible methods of one impl block are pairwise distinct (rustc enforces it for all methods);
-   the unguarded statement is refuted in ClassifyThm.method_set_unguarded_refuted (filter consumption). *)
+   the unguarded statement is refuted in ClassifyThm.method_set_unguarded_refuted (filter consumption).
+   The model describes the crate after the repairs "to_string_wide joins wrapped lines" and "Self:: keeps its path separator". *)
 From Coq Require Import List String Bool.
 Import ListNotations.
 From IT Require Import Gen.Classify Gen.ClassifyThm.
@@ -21,19 +22,17 @@ Theorem C05_signature : forall c ms o, NoDup (elig_names c ms) -> gen c ms = Ok 
   forall lm, In lm (o_mets o) -> In (lm_from lm) ms /\ sig_spec c (lm_from lm) lm.
 Proof. exact gen_signature. Qed.
 
-(* parameter and return types: `Self` replaced by the actor type, nothing else touched.
-   FULL-STRENGTH (without mi_long = false) is refuted: ClassifyThm.types_unguarded_refuted (known finding long-signature-self). *)
-Theorem C05_types_guarded : forall c ms o, NoDup (elig_names c ms) -> gen c ms = Ok o ->
-  forall lm, In lm (o_mets o) -> mi_long (lm_from lm) = false ->
-    lm_ret lm = option_map (subst_self (c_actor_ty c)) (mi_ret (lm_from lm))
-    /\ lm_params lm = map (fun p => subst_self (c_actor_ty c) (p_ty p)) (spec_params c (lm_from lm)).
-Proof. exact gen_types_guarded. Qed.
+(* parameter and return types: `Self` replaced by the actor type and `Self ::` by `<turbofish of the actor type> ::`,
+   nothing else touched, whatever the length of the signature *)
+Theorem C05_types : forall c ms o, NoDup (elig_names c ms) -> gen c ms = Ok o ->
+  forall lm, In lm (o_mets o) ->
+    lm_ret lm = option_map (sub c) (mi_ret (lm_from lm))
+    /\ lm_params lm = map (fun p => sub c (p_ty p)) (spec_params c (lm_from lm)).
+Proof. exact gen_types. Qed.
 
-(* every input inside the envelope gets a handle (with C05_method_set: no eligible selected method is missing).
-   FULL-STRENGTH (without self_path_class = false) is refuted: ClassifyThm.total_unguarded_refuted (known finding self-assoc-path). *)
-Theorem C05_total_guarded : forall c ms, NoDup (elig_names c ms) -> valid_input c ms -> self_path_class c ms = false ->
-  exists o, gen c ms = Ok o.
-Proof. exact gen_total_guarded. Qed.
+(* every input inside the envelope gets a handle (with C05_method_set: no eligible selected method is missing) *)
+Theorem C05_total : forall c ms, NoDup (elig_names c ms) -> valid_input c ms -> exists o, gen c ms = Ok o.
+Proof. exact gen_total. Qed.
 
 (* &self / &mut self methods are async exactly when lib is not std; static ones keep their own; consuming ones never lose theirs *)
 Theorem C05_async_rule : forall c ms o, NoDup (elig_names c ms) -> gen c ms = Ok o ->
@@ -89,20 +88,26 @@ Theorem C05_field_capitalised : forall c r, is_upper c = true -> no_upper r = tr
 Proof. exact snake_capitalised. Qed.
 
 (* Self substitution in parameter / return types *)
-Theorem C05_subst_self_laws : forall a t u,
-  subst_self a (t ++ u) = subst_self a t ++ subst_self a u
-  /\ (no_self t = true -> subst_self a t = t)
-  /\ (no_self a = true -> no_self (subst_self a t) = true)
-  /\ subst_self a ["Self"%string] = a.
+Theorem C05_subst_self_laws : forall a tb t u,
+  (starts_colon u = false -> subst_self a tb (t ++ u) = subst_self a tb t ++ subst_self a tb u)
+  /\ (no_self t = true -> subst_self a tb t = t)
+  /\ (no_self a = true -> no_self tb = true -> no_self (subst_self a tb t) = true)
+  /\ subst_self a tb ["Self"%string] = a
+  /\ subst_self a tb ("Self" :: "::" :: t)%string = tb ++ "::"%string :: subst_self a tb t
+  /\ (starts_colon t = false -> subst_self a tb ("Self"%string :: t) = a ++ subst_self a tb t).
 Proof.
-  intros a t u. split; [apply subst_self_app|]. split; [apply subst_self_id|]. split; [apply subst_self_removes|apply subst_self_Self].
+  intros a tb t u. split; [apply subst_self_app|]. split; [apply subst_self_id|]. split; [apply subst_self_removes|].
+  split; [apply subst_self_Self|]. split; [apply subst_self_path|apply subst_self_plain].
 Qed.
+
+Theorem C05_turbo_no_self : forall t, no_self t = true -> no_self (turbo t) = true.
+Proof. exact turbo_no_self. Qed.
 
 Print Assumptions C05_method_set.
 Print Assumptions C05_method_names.
 Print Assumptions C05_signature.
-Print Assumptions C05_types_guarded.
-Print Assumptions C05_total_guarded.
+Print Assumptions C05_types.
+Print Assumptions C05_total.
 Print Assumptions C05_async_rule.
 Print Assumptions C05_filter_consumption.
 Print Assumptions C05_unknown_name_diag.
@@ -115,3 +120,4 @@ Print Assumptions C05_member_names_distinct.
 Print Assumptions C05_field_snake.
 Print Assumptions C05_field_capitalised.
 Print Assumptions C05_subst_self_laws.
+Print Assumptions C05_turbo_no_self.
